@@ -2447,7 +2447,7 @@ theorem NCtx.success (x : NCtx P depth c s s1 tkt d q pc0) (v : Val) (hv : v.isR
 
 theorem NCtx.dflt (x : NCtx P depth c s s1 tkt d q pc0) (kw : Kwargs) (obs : List Obs) :
     Struct P depth (nodeDefault c s1 obs d q [] kw).1 := by
-  unfold nodeDefault
+  rw [nodeDefault_of_none _ _ _ _ _ _ _ (by rw [x.hcP]; exact x.hp.sw.dfltOk _)]
   refine x.success _ ?_ _
   rw [x.hcP]
   exact (x.hp.sw.noRecurD q kw).1
